@@ -316,7 +316,8 @@ struct RoundCheck {
     seq_bracket: HashMap<u64, (u64, usize, usize)>,
     open_seq: HashMap<u32, Vec<u64>>,
     yielded_seqs: HashSet<u64>,
-    last_yielded_seq_of_sig: HashMap<u64, u64>,
+    /// per consuming thread: with two batches of one instance drained by two threads only each thread's own sequence is an order
+    last_yielded_seq_of_sig: HashMap<(u32, u64), u64>,
     /// stamp at which add_signal(sig) returned Ok
     ret_stamps: HashMap<u64, usize>,
     /// last time the instance's own action began to store for the signal (EX_STORE stamp of the action that
@@ -422,7 +423,7 @@ impl RoundCheck {
                                 if *bsig != sig {
                                     tot.bad10.push(format!("record seq {} yielded as signal {} but was delivered as signal {}", seq, sig, bsig));
                                 }
-                                if let Some(prev) = self.last_yielded_seq_of_sig.get(&sig) {
+                                if let Some(prev) = self.last_yielded_seq_of_sig.get(&(e.tid, sig)) {
                                     if let (Some(pb), Some(cb)) = (self.seq_bracket.get(prev), self.seq_bracket.get(&seq)) {
                                         // prev was yielded before this one; order violation if this one's delivery
                                         // ended before prev's delivery began
@@ -434,7 +435,7 @@ impl RoundCheck {
                                         }
                                     }
                                 }
-                                self.last_yielded_seq_of_sig.insert(sig, seq);
+                                self.last_yielded_seq_of_sig.insert((e.tid, sig), seq);
                             }
                         }
                     }
